@@ -63,7 +63,8 @@ def num_literal(rng):
     if r < 0.8:
         return rng.choice([".5", "5.", "0.25", "1E2", "1e+2", "1.5e3", "2.5E-3", "1e-14", "1e10", "0.1", "0.3",
                            "1e15", "4.9e-324", "1.7976931348623157e308", "2.2250738585072014e-308",
-                           "9007199254740993", "0.30000000000000004", "1e22", "1e23", "123.456e-7", "00012", "1.e1"])
+                           "9007199254740993", "0.30000000000000004", "1e22", "1e23", "123.456e-7", "00012", "1.e1",
+                           "0x10", "0XfF", "0x.8", "0x1.8p3", "0x1p-2", "0x7fffffff"])
     if r < 0.9:
         v = 10 ** rng.uniform(-8, 8)
         return repr(v)
@@ -149,7 +150,11 @@ class Gen:
                 opt = kw(rng, op) if op.isalpha() else op
                 parts.append(opt)
                 if op == "^":
-                    if rng.random() < 0.15:                      # fractional power of a non-negative base
+                    if rng.random() < 0.12:                      # negative base, integer exponent of either sign/parity
+                        parts[-2] = rng.choice(["(-2)", "(-1.5)", "(-ABS(" + parts[-2] + ") - 1)", "(0 - 3)", "(-0.5)"])
+                        parts.append(rng.choice(["(-3)", "(-1)", "-1", "(-2)", "3", "(-5)", "-3", "(0 - 1)", "(-4)"]))
+                        self.note("neg-base-int-power")
+                    elif rng.random() < 0.15:                      # fractional power of a non-negative base
                         parts[-2] = "ABS(" + parts[-2] + ")"
                         parts.append(rng.choice(["0.5", "(1/3)", "1.5", "-0.5"]))
                     elif rng.random() < 0.85:
@@ -224,6 +229,11 @@ class Gen:
         if r < 0.65:
             self.note("fn:STR$")
             return f"{kw(rng, 'STR$')}({self.num_expr(depth - 1)})"
+        if r < 0.70:
+            f = rng.choice(["STR_F$", "STR_E$"])
+            self.note("fn:" + f)
+            return (f"{kw(rng, f)}({self.num_expr(depth - 1)}, {rng.choice(['0', '8', '12', '20', '-10', '5', '30'])}, "
+                    f"{rng.choice(['0', '1', '2', '4', '6', '12', '-1', '17'])})")
         if r < 0.78:
             self.note("fn:MID$")
             args = [self.str_expr(depth - 1), rng.choice(["1", "2", "3", "0", "5", "40", "-1", self.small_int()])]
@@ -334,7 +344,7 @@ class Gen:
         return self.assign() if self.rng.random() < 0.4 else self.output()
 
 
-def gen_program(rng, size=20, rich=True):
+def gen_program(rng, size=20, rich=True, max_depth=3):
     """returns (lines, info): lines = list of 'N text' strings"""
     g = Gen(rng, rich)
     main, subs, data_lines = [], [], []
@@ -375,6 +385,8 @@ def gen_program(rng, size=20, rich=True):
         else:
             data_items.append(("s", str_literal(rng)))
     data_pos = [0]
+    per_chunk = rng.choice([1, 2, 3, 6])
+    chunk_labels = [new_label() for _ in range(0, len(data_items), per_chunk)]
     n_subs = rng.choice([0, 0, 1, 2, 3, 5]) if size > 6 else 0
     sub_labels = [new_label() for _ in range(n_subs)]
 
@@ -383,13 +395,13 @@ def gen_program(rng, size=20, rich=True):
         out = []
         while n > 0:
             r = rng.random()
-            if r < 0.5 or depth > 3:
+            if r < 0.5 or depth > max_depth:
                 k = rng.choice([1, 1, 1, 2, 3])
                 out.append(" : ".join(g.simple() for _ in range(k)) if rng.random() < 0.9
                            else ":".join(g.simple() for _ in range(k)))
                 n -= 1
             elif r < 0.66:                                    # FOR loop
-                v = next((x for x in LOOP_VARS if x not in g.loop_stack), None)
+                v = next((x for x in LOOP_VARS if x not in g.loop_stack), None) if len(g.loop_stack) < 4 else None
                 if v is None:
                     continue
                 start = rng.choice(["1", "0", "-2", "3", "0.5", g.small_int(), f"{g.small_int()} - 1"])
@@ -483,10 +495,16 @@ def gen_program(rng, size=20, rich=True):
                 data_pos[0] += k
                 g.note("READ")
                 out.append(kw(rng, "READ") + " " + ", ".join(targets))
-                if rng.random() < 0.1:
+                if rng.random() < 0.12:
                     g.note("RESTORE")
                     out.append(kw(rng, "RESTORE"))
                     data_pos[0] = 0
+                    n -= 1
+                elif rng.random() < 0.12 and chunk_labels:
+                    g.note("RESTORE-line")
+                    c = rng.randrange(len(chunk_labels))
+                    out.append(kw(rng, "RESTORE") + " " + chunk_labels[c])
+                    data_pos[0] = c * per_chunk
                     n -= 1
                 n -= 1
             else:
@@ -511,12 +529,20 @@ def gen_program(rng, size=20, rich=True):
     data_items = saved_items
     # DATA lines anywhere (they are skipped when executed)
     if data_items:
-        per = rng.choice([1, 2, 3, 6])
+        per = per_chunk
         chunks = [data_items[i:i + per] for i in range(0, len(data_items), per)]
         positions = sorted(rng.randint(0, len(body)) for _ in chunks)
-        for off, (pos, ch) in enumerate(zip(positions, chunks)):
+        for off, (pos, ch, lab) in enumerate(zip(positions, chunks, chunk_labels)):
             g.note("DATA")
-            body.insert(pos + off, "@DATA@" + kw(rng, "DATA") + " " + ", ".join(t for _, t in ch))
+            items = [t for _, t in ch]
+            if len(items) > 1 and rng.random() < 0.25:          # two DATA statements on one line
+                k = rng.randint(1, len(items) - 1)
+                text = kw(rng, "DATA") + " " + ", ".join(items[:k]) + " : " + kw(rng, "DATA") + " " + ", ".join(items[k:])
+            else:
+                text = kw(rng, "DATA") + " " + ", ".join(items)
+            if rng.random() < 0.15:
+                text = kw(rng, "REM") + " data follows" if False else text
+            body.insert(pos + off, lab + "=" + text)
     # loops containing READ are avoided above only by construction of `block` at depth 0; READs nested in loops may
     # run out of data → that is a legitimate "Out of Data" error on both sides.
     # --- numbering
